@@ -385,53 +385,6 @@ impl Value {
         })
     }
 
-    pub fn not_equals(&self, other: &Self) -> bool {
-        match self {
-            Value::String(s1, ..) => match other {
-                Value::String(s2, ..) => s1 != s2,
-                _ => true,
-            },
-            Value::Dimension(SassNumber {
-                num: n,
-                unit,
-                as_slash: _,
-            }) if !n.is_nan() => match other {
-                Value::Dimension(SassNumber {
-                    num: n2,
-                    unit: unit2,
-                    as_slash: _,
-                }) if !n2.is_nan() => {
-                    if !unit.comparable(unit2) {
-                        true
-                    } else if unit == unit2 {
-                        n != n2
-                    } else if unit == &Unit::None || unit2 == &Unit::None {
-                        true
-                    } else {
-                        n != &n2.convert(unit2, unit)
-                    }
-                }
-                _ => true,
-            },
-            Value::List(list1, sep1, brackets1) => match other {
-                Value::List(list2, sep2, brackets2) => {
-                    if sep1 != sep2 || brackets1 != brackets2 || list1.len() != list2.len() {
-                        true
-                    } else {
-                        for (a, b) in list1.iter().zip(list2) {
-                            if a.not_equals(b) {
-                                return true;
-                            }
-                        }
-                        false
-                    }
-                }
-                _ => true,
-            },
-            s => s != other,
-        }
-    }
-
     pub fn as_list(self) -> Vec<Value> {
         match self {
             Value::List(v, ..) => v,
